@@ -160,6 +160,14 @@ def _semantic(ck, ctx):
         # comment texts can be empty (a bare `--` after code): they are comment texts all the same
         "only blank comment texts": [copy.deepcopy(ents["table_name"]), {"comments": ["", ""]}],
         "one blank comment text": [{"comments": [""]}],
+        # the same statement written twice gives two equal flat entities: the regrouping keeps both ("every entity once" is per
+        # flat entity, not per distinct value) - with and without IF NOT EXISTS, adjacent and apart
+        "an entity twice": [copy.deepcopy(ents["schema_name"]), copy.deepcopy(ents["schema_name"]), copy.deepcopy(ents["table_name"]),
+                            copy.deepcopy(ents["sequence_name"]), copy.deepcopy(ents["table_name"])],
+        "an IF NOT EXISTS entity twice": [dict(copy.deepcopy(ents["schema_name"]), if_not_exists=True), copy.deepcopy(ents["type_name"]),
+                                          dict(copy.deepcopy(ents["schema_name"]), if_not_exists=True),
+                                          dict(copy.deepcopy(ents["table_name"]), if_not_exists=True), dict(copy.deepcopy(ents["table_name"]), if_not_exists=True)],
+        "a property twice": [copy.deepcopy(ents["value"]), copy.deepcopy(ents["value"])],
     }
     for k in kinds:
         scenarios[f"only: {k}"] = [copy.deepcopy(ents[k])]
